@@ -63,3 +63,10 @@ impl SimulationBoundary {
         ]
     }
 }
+
+#[cfg(feature = "verif-hooks")]
+impl SimulationBoundary {
+    pub(crate) fn vh_rescaled(&self, loc: DVec3) -> DVec3 {
+        DVec3::splat(1.) + (loc - self.anchor) * self.inverse_width
+    }
+}
